@@ -934,7 +934,9 @@ func (fs *fileStore) iterate(outFields []core.Field, ms *memstore, okayToReuseBu
 				}
 			}
 
-			var more bool
+			// a row without any of the requested columns is skipped, it doesn't
+			// end the scan
+			more := true
 			if includesAtLeastOneColumn {
 				more, err = onRow(key, columns, raw)
 				if err != nil {
